@@ -19,7 +19,7 @@ try:
     demo_target = os.path.join(scratch, demo_dir, "zz_seeded_demo_test.go")
     shutil.copy(f"{src}/demo_test.go", demo_target)
     pkg = "./" + demo_dir if demo_dir != "." else "."
-    democmd = f"go test -mod=mod -vet=off -count=1 -timeout 300s -run '{run_re}' {pkg}"
+    democmd = f"go test -mod=mod -vet=off -count=1 -timeout 300s {os.environ.get('DEMO_FLAGS','')} -run '{run_re}' {pkg}"
     rc0, out0 = sh(democmd, scratch)
     meta["demo_without_change"] = "pass" if rc0 == 0 else "FAIL"
     rc, out = sh(f"git apply {src}/patch.diff", scratch)
